@@ -918,6 +918,9 @@ def run(ctx):
         rule_copied_cursor(ctx, F)
         rule_pop_once(ctx, F)
         rule_scoped(ctx, F)
+        # the external scanner's payload is destroyed while the language that owns `destroy` is still assigned: reset precedes every change of the language (shared with C09.P2)
+        import C09
+        C09.rule_p2(ctx, F)
         # "freed exactly once": a clone must own its own copy of what release frees per node (shared with C08.P2)
         import C08
         C08.rule_p2(ctx, F)
